@@ -11,6 +11,12 @@
 
    implObs  := (all X) | (diff X0 … X7)      X := err | none | tree
    model answers (all X).
+
+   The model judged with is the code AS IT IS (`Load.codeCfg`, tied to the source by
+   `C15_pruning_is_code`). It shows none of the three formerly recorded behaviours
+   (`C15_no_recorded_behaviour_code`), so no input is excused any more: hyp is always `-`, and an
+   implementation that swallows an `enabled` error again, drops an iterator by its template's raw
+   text again or keeps a hollow aggregator again is a plain disagreement with spec = 0.
 -/
 import ControlModel.Model.Load
 import ControlModel.Spec.C15
@@ -105,20 +111,15 @@ def processLine (line : String) : String :=
   | [inp, impl] =>
     match (SExp.parse inp).bind (fun s => parseRole s .nil) with
     | some t =>
-      let o := proc {} [] t
+      let o := proc codeCfg {} [] t
       let model := loadedSx o.loaded
       let modelStr := toString (SExp.list [.atom "all", model])
       -- Spec on what the implementation reported: all eight settings agree and the common
       -- result is what the property demands (compared in canonical text form).
       let want := toString (SExp.list [.atom "all", loadedSx (idealLoad t)])
       let spec := impl == want
-      let hyp :=
-        if spec then "-"
-        else if o.ev.masked then "enabled_error_masked"
-        else if o.ev.iterDrop then "iterator_enabled_expr"
-        else if o.ev.hollow then "hollow_iterator"
-        else "-"
-      s!"{modelStr}\t{if spec then 1 else 0}\t{hyp}"
+      -- no excluded hypothesis is left for this property (the three former classes are fixed)
+      s!"{modelStr}\t{if spec then 1 else 0}\t-"
     | none => "BADINPUT\t0\t-"
   | _ => "BADLINE\t0\t-"
 
